@@ -94,6 +94,7 @@ type wasiInst struct {
 	dir       string
 	trace     []string
 	ctx       context.Context
+	bare      bool // fully default ModuleConfig: no stdio, no mounts, no args; descriptor operands are folded onto 0..2
 }
 
 func mkTree(dir string, idx int) {
@@ -102,16 +103,19 @@ func mkTree(dir string, idx int) {
 	os.WriteFile(filepath.Join(dir, "sub", "d.txt"), []byte("dddddddddddd"), 0o644)
 }
 
-func newWasiInst(ctx context.Context, rt wazero.Runtime, cm wazero.CompiledModule, base wazero.ModuleConfig, root string, idx int, name string) (*wasiInst, error) {
-	in := &wasiInst{out: &bytes.Buffer{}, errb: &bytes.Buffer{}, ctx: ctx}
+func newWasiInst(ctx context.Context, rt wazero.Runtime, cm wazero.CompiledModule, base wazero.ModuleConfig, root string, idx int, name string, bare bool) (*wasiInst, error) {
+	in := &wasiInst{out: &bytes.Buffer{}, errb: &bytes.Buffer{}, ctx: ctx, bare: bare}
 	in.dir = filepath.Join(root, name)
 	mkTree(in.dir, idx)
 	if base == nil {
 		base = wazero.NewModuleConfig()
 	}
-	cfg := base.WithName(name).WithStdout(in.out).WithStderr(in.errb).
-		WithStdin(strings.NewReader(fmt.Sprintf("stdin-of-instance-%d-abcdefghijklmnopqrstuvwxyz", idx))).
-		WithFSConfig(wazero.NewFSConfig().WithDirMount(in.dir, "/")).WithArgs("prog", fmt.Sprint(idx))
+	cfg := base.WithName(name)
+	if !bare {
+		cfg = cfg.WithStdout(in.out).WithStderr(in.errb).
+			WithStdin(strings.NewReader(fmt.Sprintf("stdin-of-instance-%d-abcdefghijklmnopqrstuvwxyz", idx))).
+			WithFSConfig(wazero.NewFSConfig().WithDirMount(in.dir, "/")).WithArgs("prog", fmt.Sprint(idx))
+	}
 	mod, err := rt.InstantiateModule(ctx, cm, cfg)
 	if err != nil {
 		return nil, err
@@ -133,6 +137,16 @@ func (in *wasiInst) call(name string, args ...uint64) uint32 {
 
 func (in *wasiInst) do(o wop) {
 	mem := in.mod.Memory()
+	if in.bare {
+		// the only descriptors such an instance has are its own three standard ones
+		switch o.Op {
+		case "close", "write", "read", "seek", "fdstat":
+			o.A %= 3
+		case "renumber":
+			o.A %= 3
+			o.B %= 4
+		}
+	}
 	var ev string
 	switch o.Op {
 	case "open":
@@ -302,8 +316,14 @@ func wasiChild(in json.RawMessage) any {
 		base = wazero.NewModuleConfig().WithEnv("SHARED", "base")
 		res.Shape += ",shared-base-config"
 	}
+	// a quarter of the groups: instances with the fully default configuration (no stdio, mounts or arguments) whose
+	// scripts close, renumber and use their standard descriptors
+	bare := gc.Seed%4 == 1
+	if bare {
+		res.Shape += ",default-config-instances"
+	}
 	for i := range group {
-		g, err := newWasiInst(ctx, rt, cm, base, filepath.Join(root, "group"), i, fmt.Sprintf("inst%d", i))
+		g, err := newWasiInst(ctx, rt, cm, base, filepath.Join(root, "group"), i, fmt.Sprintf("inst%d", i), bare)
 		if err != nil {
 			res.Sig, res.Detail = "wasi:instantiate-failed", err.Error()
 			rt.Close(ctx)
@@ -341,7 +361,7 @@ func wasiChild(in json.RawMessage) any {
 		if base != nil {
 			loneBase = wazero.NewModuleConfig().WithEnv("SHARED", "base")
 		}
-		lone, err := newWasiInst(ctx, rt, cm, loneBase, filepath.Join(root, fmt.Sprintf("lone%d", i)), i, fmt.Sprintf("inst%d", i))
+		lone, err := newWasiInst(ctx, rt, cm, loneBase, filepath.Join(root, fmt.Sprintf("lone%d", i)), i, fmt.Sprintf("inst%d", i), bare)
 		if err != nil {
 			rt.Close(ctx)
 			continue
